@@ -663,6 +663,19 @@ def race_idioms():
     A(P("chan-racy", [spawn(2), L("tryrecv", "ch"), rd("c"), join(2), L("droprx", "ch")], [wr("c"), L("send", "ch", v=1)]))
     A(P("chan-2msg-ok", [spawn(2), spawn(3), L("recv", "ch"), L("recv", "ch"), rd("c"), rd("d"), join(2), join(3), L("droprx", "ch")],
         [wr("c"), L("send", "ch", v=1)], [wr("d"), L("send", "ch", v=2)]))
+    # pointers from UnsafeCell::get / get_mut: the access is open until the pointer is dropped, and what happens in between
+    # counts (a release made while the pointer is still held does not cover the rest of the access)
+    HR = lambda *b: [L("rdhold", "c")] + list(b) + [L("rdrel", "c")]
+    HW = lambda *b: [L("wrhold", "c")] + list(b) + [L("wrrel", "c")]
+    A(P("held-read-then-release-ok", sj(2) + jj(2), HR(ld("y")) + [st("x", 1, "rel")], [ld("x", "acq"), br(1, 1, 1), wr("c")]))
+    # (not claimed: a release made while the pointer is still held. loom's drop-time re-check uses the thread's clock, which
+    # has not ticked since the release, so the tail of the access is not seen; whether merely HOLDING the pointer is an access
+    # is a matter of definition - the shapes here only use orders on which both readings agree)
+    A(P("held-write-then-release-ok", sj(2) + jj(2), HW(ld("y")) + [st("x", 1, "rel")], [ld("x", "acq"), br(1, 1, 1), rd("c")]))
+    A(P("held-reads-overlap-ok", sj(2) + jj(2), HR(ld("y"), ld("x")), HR(ld("x"), ld("y"))))
+    A(P("held-read-vs-write-under-lock-ok", sj(2) + jj(2), CS("m", *HR(ld("y"))), CS("m", wr("c"))))
+    A(P("held-read-outlives-lock-racy", sj(2) + jj(2), [L("lock", "m"), L("rdhold", "c"), L("unlock", "m"), ld("y"), L("rdrel", "c")], CS("m", wr("c"))))
+    A(P("held-write-acquire-inside-ok", sj(2) + jj(2), [wr("c"), st("x", 1, "rel")], [L("rdhold", "c2"), ld("x", "acq"), L("rdrel", "c2"), br(1, 1, 1), rd("c")]))
     # RwLock hand-over: EVERY reader's release is acquired by the next writer, also a reader that is not the last one out
     RDc = lambda *b: [L("read", "l")] + list(b) + [L("unlockr", "l")]
     WRc = lambda *b: [L("write", "l")] + list(b) + [L("unlockw", "l")]
